@@ -190,6 +190,7 @@ let () =
            | "merge_apply" -> ApiMerge.api_merge_apply (arg 1) (arg 2)
            | "merge" -> ApiMerge.api_merge (make_oracles (arg 5)) (arg 1) (arg 2) (arg 3) (arg 4)
            | "merge_chunks" -> ApiMerge.api_merge_chunks (arg 1) (arg 2) (arg 3)
+           | "merge_facts" -> ApiMerge.api_merge_facts
            | c -> failwith ("unknown command " ^ c))
         with Failure m -> JObj [([n_of_int 102], JStr (Stdlib.List.map (fun c -> n_of_int (Char.code c)) (Stdlib.List.init (Stdlib.String.length m) (Stdlib.String.get m))))]
            | Stack_overflow -> JObj [([n_of_int 102], JStr [n_of_int 83])] in
